@@ -13,8 +13,12 @@ from engine import tlc
 from engine.core import shard_map, watchdog_map
 from engine.tlc import MachineryError
 
-KINDS = ["busy", "printer", "swallower", "blocked", "finisher"]
-PROPERTY_INVS = {"ExcIsTimeout", "ExcStable", "OneRuntimeFb", "StacksEmpty", "NoCrash", "NextRunClean"}
+KINDS = ["busy", "printer", "swallower", "blocked", "finisher", "catcher"]
+# the later execution threaded as well (a blocked student is released, and dies, during it)
+TN_CFGS = ["catcher_tn", "blocked_tn", "busy_tn", "printer_tn"]
+PROPERTY_INVS = {"ExcIsTimeout", "ExcStable", "OneRuntimeFb", "StacksEmpty", "NoCrash", "NextRunClean", "NextExcNone"}
+DESIGN_MUTANTS = [("MUT_Timeout_inject_exception.cfg", "an injected exception class derived from Exception (a catcher swallows it)"),
+                  ("MUT_Timeout_shared_field.cfg", "the student thread's exception handed back through one sandbox field")]
 
 
 def run(prop, tier, seed, ctx):
@@ -28,7 +32,7 @@ def run(prop, tier, seed, ctx):
                        "forced on real threads, (c) free-running threaded executions; non-trivial = the execution "
                        "timed out; distinct = distinct (kind, schedule) or (kind, run index)")
     # ---- 1. model checking
-    for kind in KINDS:
+    for kind in KINDS + TN_CFGS:
         res = tlc.run("TimeoutRace", "MC_Timeout_grader_bookkeeping_%s.cfg" % kind, workers=4, timeout=600, cont=True)
         ctx.add_tlc(res, "all interleavings, repaired design, kind=" + kind)
         bad = sorted(set(res.violated) & PROPERTY_INVS)
@@ -38,6 +42,8 @@ def run(prop, tier, seed, ctx):
             ctx.violation("C14|model|%s|%s" % (kind, inv),
                           "TLC: invariant %s fails for the repaired design with a %s student program" % (inv, kind),
                           {"cfg": "MC_Timeout_grader_bookkeeping_%s.cfg" % kind, "invariant": inv})
+        if kind in TN_CFGS:
+            continue
         vac = tlc.run("TimeoutRace", "VAC_Timeout_%s.cfg" % kind, workers=2, timeout=300)
         if "QuietReachable" not in vac.violated:
             raise MachineryError("vacuity: quiescent state not reachable for kind " + kind)
@@ -48,6 +54,11 @@ def run(prop, tier, seed, ctx):
         if not set(m.violated) & PROPERTY_INVS:
             raise MachineryError("mutant design student_bookkeeping/%s did not violate anything" % kind)
         ctx.notes.append("self-test: pinned design student_bookkeeping/%s violates %s" % (kind, sorted(set(m.violated))))
+    for mcfg, what in DESIGN_MUTANTS:
+        m = tlc.run("TimeoutRace", mcfg, workers=4, timeout=600, cont=True)
+        if not set(m.violated) & PROPERTY_INVS:
+            raise MachineryError("design mutant %s did not violate anything" % mcfg)
+        ctx.notes.append("self-test: %s violates %s" % (what, sorted(set(m.violated) & PROPERTY_INVS)))
     # ---- 2. forced schedules
     forced = []
     for kind in ["busy", "printer", "finisher", "blocked"]:
@@ -82,7 +93,8 @@ def run(prop, tier, seed, ctx):
     # ---- 3. free-running
     n = 3 if tier == "quick" else 25
     cases = []
-    for kind in ["busy", "printer", "blocked", "swallower", "swallower_loud", "finisher", "raiser_late"]:
+    for kind in ["busy", "printer", "blocked", "swallower", "swallower_loud", "finisher", "raiser_late", "catcher",
+                 "catcher_loud", "blocked_tn", "busy_tn", "printer_tn", "catcher_tn"]:
         for i in range(n):
             allowed = [0.05, 0.08, 0.12][(i + seed) % 3]
             fin = [20000, 300000, 1500000, 4000000][(i + seed) % 4]
